@@ -16,7 +16,7 @@ A program is a list of nodes; a node is a JSON list:
 from __future__ import annotations
 
 BODY_KINDS = {"for": [1], "forv": [2], "while": [1, 2], "if": [1, 2], "lam": [2], "map": [1], "filter": [1],
-              "sort": [1], "fdef": [3], "mod": [2]}
+              "sort": [1], "fdef": [3], "mod": [2], "exec": [1]}
 
 
 def render_body(body):
@@ -56,6 +56,8 @@ def render(n):
         return "⟨ " + " | ".join(render_body(it) for it in n[1]) + " ⟩"
     if k in ("X", "x"):
         return k
+    if k == "exec":
+        return "`" + render_body(n[1]).replace("`", "") + "` Ė"
     raise ValueError(n)
 
 
@@ -129,7 +131,11 @@ MONADS = ["›", "‹", "d", "N", "²", "±", "₂", "¬", "L", "w", ":", "_", "
 DYADS = ["+", "-", "*", "=", "<", ">", "∧", "∨", "\"", "J", "$", "p", "Z", "Y", "i", "Ẏ", "ȯ", "%", "ẋ", "o", "c"]
 EFFECTS = ["£", "→a", "→b", "⅛", "_"]
 PRINTS = [",", "₴", "…", "¨,"]
-LAZY_MAKERS = ["3ɾ", "2ʀ", "4ɾ", "⟨1|2|3⟩ ƛ › ;", "3ɾ ƛ d ;", "3ɾ ' ₂ ;", "3ɾ : J", "3ɾ Ṙ", "2ɾ ¦", "3ɾ ›"]
+LAZY_MAKERS = ["3ɾ", "2ʀ", "4ɾ", "⟨1|2|3⟩ ƛ › ;", "3ɾ ƛ d ;", "3ɾ ' ₂ ;", "3ɾ : J", "3ɾ Ṙ", "2ɾ ¦", "3ɾ ›",
+               "λ › ;", "⟨ λ › ; | 2 ⟩", "λ2| + ;", "⟨ 3ɾ | 2ʀ ⟩", "3ɾ ƛ ɾ ;"]
+# terminating recursion: the lambda calls itself (x) until its argument reaches 0
+RECURSIONS = ["3 λ : [ ‹ x ] ; †", "2 λ : [ ‹ x | 7 ] ; †", "⟨2|1⟩ ƛ : [ ‹ x ] ;", "2 λ : [ ‹ x X ] 5 ; †", "3 λ : 0 > [ ‹ v x ] ; †",
+              "2 λ : [ ‹ ⁽ x † ] ; †", "3 λ : [ ‹ x , ] ; †"]
 MODS1 = ["v", "⁽", "&", "~", "ß", "ƒ", "ɖ"]
 MODS2 = ["₌", "‡", "₍"]
 MODS3 = ["≬"]
@@ -154,6 +160,8 @@ class Gen:
             return ["t", r.choice(EFFECTS)]
         if x < 0.88 + self.cfg.get("p_print", 0.06):
             return ["t", r.choice(PRINTS)]
+        if x > 0.985:
+            return ["t", r.choice(RECURSIONS)]
         return ["t", r.choice(LAZY_MAKERS)]
 
     def exit_stmt(self):
@@ -193,8 +201,8 @@ class Gen:
         if depth >= self.cfg.get("max_depth", 4) or r.random() < 0.55:
             return self.simple()
         k = r.choices(
-            ["for", "forv", "while", "if", "lam", "map", "filter", "sort", "fdef", "mod", "list", "print_lazy"],
-            self.cfg.get("weights", [5, 2, 2, 3, 4, 4, 2, 1, 2, 3, 1, 2]))[0]
+            ["for", "forv", "while", "if", "lam", "map", "filter", "sort", "fdef", "mod", "list", "print_lazy", "exec"],
+            list(self.cfg.get("weights", [5, 2, 2, 3, 4, 4, 2, 1, 2, 3, 1, 2]))[:12] + [self.cfg.get("w_exec", 1)])[0]
         d = depth + 1
         if k == "for":
             return ["mod_seq", [["t", r.choice(["2", "3", "1", "⟨1|2⟩", "2ɾ", "0"])], ["for", self.body(d, "for")]]]
@@ -254,6 +262,12 @@ class Gen:
             return ["list", items]
         if k == "print_lazy":
             return ["mod_seq", [["t", r.choice(LAZY_MAKERS)], ["t", r.choice(PRINTS)]]]
+        if k == "exec":
+            # code executed from a string (Ė): its own loops / lambdas / early exits, occasionally a Q (exit)
+            body = self.body(d, None, n=r.randint(1, 3))
+            if r.random() < 0.25:
+                body.append(["mod_seq", [["t", "2"], ["for", [["t", "n"], ["t", r.choice(["1 [ Q ]", "n 2 = [ Q ]", "Q"])]]]]])
+            return ["exec", body]
         raise AssertionError(k)
 
 
